@@ -713,3 +713,23 @@ Section KeepLognorm.
     - rewrite ksum_lognorm by exact Ha. rewrite zeros_is_pow0 by exact Ha. rewrite pow_lognorm by exact Ha. ring.
   Qed.
 End KeepLognorm.
+
+(* the variants differ only in log_norm: class, parameters, natural parameters and meta data of a product are
+   those of the pinned variant, so every natural-parameter theorem above holds for every variant *)
+Lemma sum_variant_indep (V : variant) (a : qmsg) (l : list qmsg) :
+  meta_eq (b_sum Qops V a l) (qsum a l) /\ elems (b_sum Qops V a l) = elems (qsum a l)
+  /\ qnat (b_sum Qops V a l) = qnat (qsum a l).
+Proof.
+  unfold meta_eq, nat_of, b_sum. destruct (is_fixed a); cbn; repeat split; reflexivity.
+Qed.
+
+Lemma sum_additive_any (V : variant) (a b : qmsg) : exact_family (fam a) -> exact_family (fam b) -> wf a -> wf b ->
+  eeq (qnat (b_sum Qops V a [b])) (map2 qadd (qnat a) (qnat b)).
+Proof. intros. destruct (sum_variant_indep V a [b]) as (_ & _ & E). rewrite E. apply sum_additive; assumption. Qed.
+
+Lemma mul_comm_nat_any (V : variant) (a b : qmsg) : exact_family (fam a) -> exact_family (fam b) -> wf a -> wf b ->
+  eeq (qnat (b_sum Qops V a [b])) (qnat (b_sum Qops V b [a])).
+Proof.
+  intros. destruct (sum_variant_indep V a [b]) as (_ & _ & E). destruct (sum_variant_indep V b [a]) as (_ & _ & E').
+  rewrite E, E'. apply mul_comm_nat; assumption.
+Qed.
